@@ -936,9 +936,38 @@ def r01_4(ctx):
     return out
 
 
+def _swap_recursion(fn):
+    """`if self.k < other.k: return other <op> self` (operands swapped under a strict order on the same attribute):
+    the guard is false in the nested call, so the recursion is one level deep"""
+    if len(fn.params) < 2:
+        return False
+    p, q = fn.params[0], fn.params[1]
+    ok = False
+    for n in ast.walk(fn.node):
+        if not isinstance(n, ast.If):
+            continue
+        t = n.test
+        if not (isinstance(t, ast.Compare) and len(t.ops) == 1 and isinstance(t.ops[0], (ast.Lt, ast.Gt))):
+            continue
+        l, r = t.left, t.comparators[0]
+        if not (isinstance(l, ast.Attribute) and isinstance(r, ast.Attribute) and l.attr == r.attr
+                and isinstance(l.value, ast.Name) and isinstance(r.value, ast.Name) and {l.value.id, r.value.id} == {p, q}):
+            continue
+        if len(n.body) == 1 and isinstance(n.body[0], ast.Return) and not n.orelse:
+            v = n.body[0].value
+            swapped = (isinstance(v, ast.BinOp) and pat.is_name(v.left, q) and pat.is_name(v.right, p)) or \
+                (isinstance(v, ast.Call) and isinstance(v.func, ast.Attribute) and pat.is_name(v.func.value, q)
+                 and len(v.args) == 1 and pat.is_name(v.args[0], p))
+            if swapped:
+                ok = True
+    return ok
+
+
 def _recursion_decreases(fn):
     """recursive call on a local list that only receives elements removed from the parameter list, after at least one
     element of the parameter was removed unconditionally elsewhere"""
+    if _swap_recursion(fn):
+        return True, "operands swapped under a strict order on the same attribute: one level deep"
     p0 = fn.params[0] if fn.params else None
     for n in ast.walk(fn.node):
         if isinstance(n, ast.Call) and isinstance(n.func, ast.Name) and n.func.id == fn.name and n.args:
